@@ -6,6 +6,7 @@ import (
 
 	"github.com/alpacahq/marketstore/v4/plugins/trigger"
 	"github.com/alpacahq/marketstore/v4/utils/log"
+	"github.com/alpacahq/marketstore/v4/verifhook"
 )
 
 type TriggerPluginDispatcher struct {
@@ -38,6 +39,7 @@ func (tpd *TriggerPluginDispatcher) run() {
 	defer func() { tpd.done <- struct{}{} }()
 
 	for wr := range tpd.c {
+		verifhook.At("Dispatcher.recv", wr.key, len(wr.records))
 		for _, tmatcher := range tpd.triggerMatchers {
 			if tmatcher.Match(wr.key) {
 				tpd.triggerWg.Add(1)
@@ -53,6 +55,7 @@ func (tpd *TriggerPluginDispatcher) AppendRecord(keyPath string, record []byte) 
 		tpd.m = make(map[string][]trigger.Record)
 	}
 
+	verifhook.At("Dispatcher.append", keyPath)
 	tpd.m[keyPath] = append(tpd.m[keyPath], record)
 }
 
@@ -60,6 +63,7 @@ func (tpd *TriggerPluginDispatcher) AppendRecord(keyPath string, record []byte) 
 // if the file path matches the condition.  This is meant to be
 // run in a separate goroutine and recovers from panics in the triggers.
 func (tpd *TriggerPluginDispatcher) DispatchRecords() {
+	verifhook.At("Dispatcher.dispatch", len(tpd.m))
 	for key, records := range tpd.m {
 		tpd.c <- writtenRecords{key: key, records: records}
 	}
